@@ -731,7 +731,11 @@ fn collisions_v<V: Fv>(ctx: &Ctx, rep: &mut Report) {
 /// s2 = b (a constant, NTT = b everywhere), s1 = a (constant), h = (c - a)/b, for salts searched
 /// so that NTT(c) holds a + b*v at some index; then NTT(h) = v there, for every v in a set of
 /// boundary residues. verify's pointwise arithmetic sees (c^, s2^, h^) = (a + b v, b, v).
-fn ntt_boundary_v<V: Fv>(ctx: &Ctx, rep: &mut Report) {
+/// Crafted valid triples whose TRANSFORM-domain operands sit on boundary values in one slot:
+/// s2 = b (constant), h = (c - a)/b, so that s2^ = b, h^ takes the value v in the slot where the
+/// hashed message's transform equals a + b v. Returns (class, message, signature, public key,
+/// needed c^ value, a, b, v).
+pub fn ntt_boundary_triples<V: Fv>(seed: u64, max_salts: usize) -> Vec<(String, Vec<u8>, Vec<u8>, Vec<u8>, i64, i64, i64, i64)> {
     let n = V::N;
     let q = spec::Q;
     let psi = spec::find_psi(n);
@@ -746,8 +750,8 @@ fn ntt_boundary_v<V: Fv>(ctx: &Ctx, rep: &mut Report) {
     }
     let msg = b"ntt boundary".to_vec();
     let mut todo: Vec<bool> = vec![true; targets.len()];
-    let mut rng = rng_for(ctx.seed, &format!("c02-nttb-{}", V::NAME));
-    let max_salts = ctx.sz(120, 600);
+    let mut rng = rng_for(seed, &format!("c02-nttb-{}", V::NAME));
+    let mut out = vec![];
     for _ in 0..max_salts {
         if !todo.iter().any(|&t| t) {
             break;
@@ -768,16 +772,24 @@ fn ntt_boundary_v<V: Fv>(ctx: &Ctx, rep: &mut Report) {
             let mut s2 = vec![0i64; n];
             s2[0] = b;
             let sg = build_sig::<V>(&salt, &spec::compress(&s2, V::SIG_LEN - 41).unwrap());
-            let out = check_triple::<V>(&format!("ntt-boundary-c{}-s{}-h{}", need, spec::modq(b), v), &msg, &sg, &spec::pk_encode(&h), rep);
-            if !matches!(out, Some((true, _))) {
-                rep.inconclusive(format!("NTT boundary construction not accepted by the reference (a={}, b={}, v={})", a, b, v));
-            }
-            rep.count("ntt_boundary_triples", 1);
-            if need == 0 || need == q - 1 {
-                rep.count("ntt_boundary_triples_with_extreme_challenge", 1);
-            }
-            rep.nontrivial(format!("{}|nttb|{}|{}|{}", V::NAME, a, b, v).as_bytes());
+            out.push((format!("ntt-boundary-c{}-s{}-h{}", need, spec::modq(b), v), msg.clone(), sg, spec::pk_encode(&h), need, a, b, v));
         }
+    }
+    out
+}
+
+fn ntt_boundary_v<V: Fv>(ctx: &Ctx, rep: &mut Report) {
+    let q = spec::Q;
+    for (class, msg, sg, pkb, need, a, b, v) in ntt_boundary_triples::<V>(ctx.seed, ctx.sz(120, 600)) {
+        let out = check_triple::<V>(&class, &msg, &sg, &pkb, rep);
+        if !matches!(out, Some((true, _))) {
+            rep.inconclusive(format!("NTT boundary construction not accepted by the reference (a={}, b={}, v={})", a, b, v));
+        }
+        rep.count("ntt_boundary_triples", 1);
+        if need == 0 || need == q - 1 {
+            rep.count("ntt_boundary_triples_with_extreme_challenge", 1);
+        }
+        rep.nontrivial(format!("{}|nttb|{}|{}|{}", V::NAME, a, b, v).as_bytes());
     }
 }
 
